@@ -66,6 +66,17 @@ type sysRemote struct {
 	IterCount     func(ctx context.Context, tag int, cb cbC) (string, error)
 	Relay         func(ctx context.Context, tag int) (int, error)
 	BadCb         func(ctx context.Context, tag int, cb func(ctx context.Context, msg string)) error // the closure parameter has no error result
+	// third generation
+	EchoStatus    func(ctx context.Context, tag int, s Status) (Status, error)   // a result type that has an Error method itself
+	EchoStatusPtr func(ctx context.Context, tag int, s *Status) (*Status, error)
+	Greet         func(ctx context.Context, tag int, name string) (string, error) // the handler returns a value only
+	Tags          func(ctx context.Context, tag int) (map[string]int, error)
+	Mirror        func(ctx context.Context, tag int, p *Rec) (*Rec, error)
+	FailFancy     func(ctx context.Context, tag int, msg string) error            // an error value no serializer can encode
+	Notify0       func(ctx context.Context, tag int) error                        // the handler returns nothing at all
+	Call0         func(ctx context.Context, tag int, cb cb0) (int, error)         // a closure that takes only a context
+	KeepAndCall   func(ctx context.Context, tag int, cb cbI) (int, error)         // keeps the callable and invokes it once
+	OpenLink      func(ctx context.Context, tag int) (int, error)                 // the handler opens another link with its request's context
 	EchoNamed     func(ctx context.Context, tag int, c Count, n Name) (Count, error)
 	Two           func(ctx context.Context, tag int, f cbI, g cbI) (string, error)
 	Sub           struct {
@@ -84,6 +95,24 @@ type Ratio float64
 type Small int8
 type cbN = func(ctx context.Context, c Count, n Name, r Ratio, s Small) (Count, error)
 type cbC = func(ctx context.Context, c Count, s Small) (Count, error)
+type cb0 = func(ctx context.Context) (int, error)
+
+// Status is a plain result value that happens to implement error
+type Status struct {
+	Code int    `json:"code" cbor:"code"`
+	Msg  string `json:"msg" cbor:"msg"`
+}
+
+func (s Status) Error() string { return s.Msg }
+
+// fancyErr carries things no serializer can encode; only its message may travel
+type fancyErr struct {
+	msg  string
+	Hook func()
+	Ch   chan int
+}
+
+func (e *fancyErr) Error() string { return e.msg }
 
 // sysErr is a concrete error type (a handler may declare it instead of the error interface)
 type sysErr struct{ msg string }
@@ -120,7 +149,8 @@ type SysEvent struct {
 }
 
 type sysWorld struct {
-	relay  func() (sysRemote, bool) // whom Relay calls (set by the relay workload)
+	relay    func() (sysRemote, bool)              // whom Relay calls (set by the relay workload)
+	openLink func(ctx context.Context, tag int) int // what OpenLink does (set by the nested-link workload)
 	mu     sync.Mutex
 	events []SysEvent
 	gates  map[int]chan struct{}
@@ -447,6 +477,59 @@ func (l *sysLocal) Relay(ctx context.Context, tag int) (int, error) {
 func (l *sysLocal) BadCb(ctx context.Context, tag int, cb func(ctx context.Context, msg string)) error {
 	l.inv(ctx, "BadCb", tag, nil)
 	return nil
+}
+func (l *sysLocal) EchoStatus(ctx context.Context, tag int, s Status) (Status, error) {
+	l.inv(ctx, "EchoStatus", tag, s)
+	return s, nil
+}
+func (l *sysLocal) EchoStatusPtr(ctx context.Context, tag int, s *Status) (*Status, error) {
+	l.inv(ctx, "EchoStatusPtr", tag, s)
+	return s, nil
+}
+func (l *sysLocal) Greet(ctx context.Context, tag int, name string) string {
+	l.inv(ctx, "Greet", tag, name)
+	return "hello " + name
+}
+func (l *sysLocal) Tags(ctx context.Context, tag int) map[string]int {
+	l.inv(ctx, "Tags", tag, nil)
+	return map[string]int{"a": 1, "b": tag}
+}
+func (l *sysLocal) Mirror(ctx context.Context, tag int, p *Rec) *Rec {
+	l.inv(ctx, "Mirror", tag, p)
+	return p
+}
+func (l *sysLocal) FailFancy(ctx context.Context, tag int, msg string) error {
+	l.inv(ctx, "FailFancy", tag, msg)
+	if msg == "<nil>" {
+		return nil
+	}
+	return &fancyErr{msg: msg, Hook: func() {}, Ch: make(chan int)}
+}
+func (l *sysLocal) Notify0(ctx context.Context, tag int) {
+	l.inv(ctx, "Notify0", tag, nil)
+}
+func (l *sysLocal) Call0(ctx context.Context, tag int, cb cb0) (int, error) {
+	l.inv(ctx, "Call0", tag, nil)
+	return cb(ctx)
+}
+func (l *sysLocal) KeepAndCall(ctx context.Context, tag int, cb cbI) (int, error) {
+	l.inv(ctx, "KeepAndCall", tag, nil)
+	l.w.mu.Lock()
+	l.w.kept[tag] = cb
+	l.w.mu.Unlock()
+	v, err := cb(ctx, tag)
+	l.w.log(SysEvent{Node: l.node, Kind: "ret", Method: "KeepAndCall", Tag: tag, Data: fmt.Sprint(v), Err: errText(err)})
+	return v, err
+}
+func (l *sysLocal) OpenLink(ctx context.Context, tag int) (int, error) {
+	l.inv(ctx, "OpenLink", tag, nil)
+	l.w.mu.Lock()
+	f := l.w.openLink
+	l.w.mu.Unlock()
+	if f == nil {
+		return -1, errors.New("no link opener")
+	}
+	return f(ctx, tag), nil
 }
 func (l *sysLocal) EchoNamed(ctx context.Context, tag int, c Count, n Name) (Count, error) {
 	l.inv(ctx, "EchoNamed", tag, []any{c, n})
@@ -779,8 +862,13 @@ func (n *SysNode[T]) Remotes() map[string]sysRemote {
 
 // Connect links a and b with the message API (stream=false) or the stream API
 func Connect[T any](w *sysWorld, a, b *SysNode[T], c Codec[T], stream bool, chunk int, seed int64) *SysLink[T] {
+	return ConnectCtx(context.Background(), w, a, b, c, stream, chunk, seed)
+}
+
+// ConnectCtx: the link context of side A descends from parentA (e.g. the context of a request being handled)
+func ConnectCtx[T any](parentA context.Context, w *sysWorld, a, b *SysNode[T], c Codec[T], stream bool, chunk int, seed int64) *SysLink[T] {
 	l := &SysLink[T]{ErrA: make(chan error, 1), ErrB: make(chan error, 1)}
-	ctxA, ca := context.WithCancel(context.Background())
+	ctxA, ca := context.WithCancel(parentA)
 	ctxB, cb := context.WithCancel(context.Background())
 	l.CancelA, l.CancelB = ca, cb
 	hooks := func(node string) *rpc.LinkHooks {
